@@ -27,12 +27,23 @@ def svg_for(k, vb, badge=False):
     y = vb[1] + vb[3] * (0.15 + 0.2 * (k % 3))
     w, h = vb[2] * (0.3 + 0.02 * (k % 5)), vb[3] * (0.25 + 0.015 * (k % 7))
     col = ["#D32F2F", "#1976D2", "#388E3C", "#F57C00"][k % 4]
+    # an irregular polygon with k % 4 + 4 vertices inscribed in that box: sources are not affine copies of one another
+    # (rectangles all are), so nothing is shared between sources unless a badge is asked for
+    import math
+
+    n = k % 4 + 4
+    pts = []
+    for i in range(n):
+        a = 2 * math.pi * i / n + 0.3 * k
+        rad = 0.5 * (0.55 + 0.45 * ((i * 7 + k * 3) % 5) / 4)
+        pts.append((x + w / 2 + w * rad * math.cos(a), y + h / 2 + h * rad * math.sin(a)))
+    unique = "M" + " L".join(f"{px:.3f},{py:.3f}" for px, py in pts) + " Z"
     extra = ""
     if badge:
         bx, by, s = vb[0] + vb[2] * (0.05 + 0.1 * (k % 6)), vb[1] + vb[3] * (0.72 + 0.03 * (k % 4)), min(vb[2], vb[3]) * 0.12
         extra = f'<path d="M{bx:g},{by:g} L{bx + s:g},{by:g} L{bx:g},{by + s:g} Z" fill="#7B1FA2"/>'
     return (f'<svg xmlns="http://www.w3.org/2000/svg" viewBox="{vb[0]} {vb[1]} {vb[2]} {vb[3]}">'
-            f'<path d="M{x:g},{y:g} L{x + w:g},{y:g} L{x + w:g},{y + h:g} L{x:g},{y + h:g} Z" fill="{col}"/>{extra}</svg>\n')
+            f'<path d="{unique}" fill="{col}"/>{extra}</svg>\n')
 
 
 def png_for(k, res, vb):
